@@ -14,7 +14,7 @@ pub const DEF: PropDef = PropDef {
     run,
     replay,
     level: "exploration",
-    rule: "metamorphic cases = (pattern class, suite, backend - default, ring-first, and application-supplied cipher wrappers that rely on the provided Cipher::rekey or override it with their own derivation -, a set of (direction, nonce, payload length) items with nonces from boundary values {0,1,2^32-1,2^32,2^63,2^64-2} and random 64-bit values, and a call script that writes and reads the items in arbitrary order with repetitions); oracle: every write of an item yields the same bytes every time, every read under the item's nonce - into buffers of exactly the payload size, 1 / 7 / 15 / 16 / 17 / 100 spare bytes or 70 000 - returns the original payload every time, and the bytes equal the message a STATEFUL sender of an identically keyed session produces when positioned at that nonce. After a rekey - automatic, rekey_manually with BOTH keys in one call, one direction per call in opposite orders on the two sides, or automatic then manual - applied alike to the stateless objects and their stateful twins, the same equalities must hold. Thread stress: 8 threads share one &StatelessTransportState per endpoint and perform interleaved reads/writes; every result must equal the sequentially pre-computed one. Non-trivial = a script with at least one repeated or out-of-order read; distinct by (config, items, script)",
+    rule: "metamorphic cases = (pattern class, suite, backend - default, ring-first, mixed (one side ring-first, the other default), and application-supplied cipher wrappers that rely on the provided Cipher::rekey or override it with their own derivation -, a set of (direction, nonce, payload length) items with nonces from boundary values {0,1,2^32-1,2^32,2^63,2^64-2} and random 64-bit values, and a call script that writes and reads the items in arbitrary order with repetitions); oracle: every write of an item yields the same bytes every time, every read under the item's nonce - into buffers of exactly the payload size, 1 / 7 / 15 / 16 / 17 / 100 spare bytes or 70 000 - returns the original payload every time, and the bytes equal the message a STATEFUL sender of an identically keyed session produces when positioned at that nonce. After a rekey - automatic, rekey_manually with BOTH keys in one call, one direction per call in opposite orders on the two sides, or automatic then manual - applied alike to the stateless objects and their stateful twins, the same equalities must hold. Thread stress: 8 threads share one &StatelessTransportState per endpoint and perform interleaved reads/writes; every result must equal the sequentially pre-computed one. Non-trivial = a script with at least one repeated or out-of-order read; distinct by (config, items, script)",
     technique: "metamorphic/differential property testing with proptest (stateless vs stateful sender; repeat/reorder invariance) + multi-threaded stress with a schedule-independent oracle",
     assumptions: &["thread interleavings are sampled by stress only: the harness does not own the scheduler, so a rare interleaving can be missed; the oracle is schedule-independent and cannot raise false alarms"],
     panic_is_violation: false,
@@ -47,6 +47,15 @@ fn spec_of(c: &Case) -> SessionSpec {
     if ring_covers(suite) || matches!(c.backend, Backend::PassThrough | Backend::OwnRekey) {
         spec.backend_i = c.backend;
         spec.backend_r = c.backend;
+        // a third of the ring cases mix the built-in backends: one side ring-first, the other
+        // default (the function of keys, nonce and input must not depend on who computes it)
+        if c.backend == Backend::RingFirst && c.seed % 3 == 1 {
+            if c.seed % 2 == 0 {
+                spec.backend_i = Backend::Default;
+            } else {
+                spec.backend_r = Backend::Default;
+            }
+        }
     }
     spec
 }
